@@ -65,7 +65,63 @@ def gen_cases(rng, tier):
             if not quantised:
                 ops.append(["q_conv", f"1@{sy}", refsym[c], MODE])
         cases.append({"ops": ops, "fork": True, "tags": ["convert:" + c]})
+    # temperature: the defining fixed points and the documented equivalents,
+    # every ordered pair of scales (amounts given on either side of each row)
+    ops = [["load_predefined"]]
+    temps = ["\u00b0C", "\u00b0F", "K"]
+    for row in TEMP_ROWS:
+        for i, a in enumerate(row):
+            for j in range(3):
+                ops.append(["q_conv", f"{rat(a)}@{temps[i]}", temps[j], MODE])
+    for _ in range(20):
+        a = rng.choice([Fraction(rng.randint(-500, 500), rng.choice([1, 2, 3, 100]))])
+        ops.append(["q_conv", f"{_tok(a)}@{rng.choice(temps)}", rng.choice(temps), MODE])
+    cases.append({"ops": ops, "fork": True, "tags": ["temperature"]})
+    # SI prefixes by the name of their module-level constant
+    cases.append({"ops": [["prefix", n] for n in PREFIX_EXP], "fork": False, "tags": ["prefixes"]})
     return cases
+
+
+def _tok(a):
+    d = a.denominator
+    while d % 2 == 0:
+        d //= 2
+    while d % 5 == 0:
+        d //= 5
+    return rat(a) if d == 1 else "F:" + rat(a)
+
+
+# (°C, °F, K) triples: rows of the documentation and the defining fixed points
+TEMP_ROWS = [(Fraction(0), Fraction(32), Fraction(27315, 100)),
+             (Fraction(-40), Fraction(-40), Fraction(23315, 100)),
+             (Fraction(-27315, 100), Fraction(-45967, 100), Fraction(0)),
+             (Fraction(100), Fraction(212), Fraction(37315, 100)),
+             (Fraction(-160, 9), Fraction(0), Fraction(27315, 100) - Fraction(160, 9))]
+
+# the SI brochure: prefix name -> power of ten
+PREFIX_EXP = {"YOCTO": -24, "ZEPTO": -21, "ATTO": -18, "FEMTO": -15, "PICO": -12, "NANO": -9,
+              "MICRO": -6, "MILLI": -3, "CENTI": -2, "DECI": -1, "DECA": 1, "HECTO": 2, "KILO": 3,
+              "MEGA": 6, "GIGA": 9, "TERA": 12, "PETA": 15, "EXA": 18, "ZETTA": 21, "YOTTA": 24}
+PREFIX_ABBR = {"YOCTO": "y", "ZEPTO": "z", "ATTO": "a", "FEMTO": "f", "PICO": "p", "NANO": "n",
+               "MICRO": "\u00b5", "MILLI": "m", "CENTI": "c", "DECI": "d", "DECA": "da", "HECTO": "h",
+               "KILO": "k", "MEGA": "M", "GIGA": "G", "TERA": "T", "PETA": "P", "EXA": "E",
+               "ZETTA": "Z", "YOTTA": "Y"}
+
+
+def _to_celsius(a, u):
+    if u == "K":
+        return a - Fraction(27315, 100)
+    if u == "\u00b0F":
+        return (a - 32) * Fraction(5, 9)
+    return a
+
+
+def _from_celsius(c, u):
+    if u == "K":
+        return c + Fraction(27315, 100)
+    if u == "\u00b0F":
+        return c * Fraction(9, 5) + 32
+    return c
 
 
 def search_cases(rng, focus, broken):
@@ -99,6 +155,17 @@ def oracle(case, impl):
             k = scale[sy]
             if f"cls={cls_of[sy]} " not in out or f"equiv={'none' if k is None else rat(k)} " not in out:
                 fails.append({"site": "cat:scale", "msg": f"{sy}: {out}, SI: {cls_of[sy]} {k}"})
+        elif o[0] == "prefix":
+            exp = f"ok {o[1].capitalize()} {PREFIX_ABBR[o[1]]} {rat(Fraction(10) ** PREFIX_EXP[o[1]])}"
+            if out != exp:
+                fails.append({"site": "cat:prefix", "msg": f"{o[1]}: {out}, SI: {exp}"})
+        elif o[0] == "q_conv" and cls_of.get(o[2]) == "Temperature":
+            a, _, u = o[1].rpartition("@")
+            a = parse_rat(a[2:] if a.startswith("F:") else a)
+            want = _from_celsius(_to_celsius(a, u), o[2])
+            exp = f"ok qty {rat(want)}@{o[2]}:Temperature"
+            if out != exp:
+                fails.append({"site": "cat:temperature", "msg": f"{o[1]} -> {o[2]}: {out}, expected {exp}"})
         elif o[0] == "q_conv":
             a, _, u = o[1].rpartition("@")
             a = parse_rat(a[2:] if a.startswith("F:") else a)
